@@ -120,7 +120,7 @@ def _run_variant(args):
 
 
 def run_selftest(prop: str, mod, base_ctx: Ctx, jobs: int = None, only: Optional[List[str]] = None) -> dict:
-    variants: List[V] = list(getattr(mod, "selftest")()) + regression_variants(prop) + seed_variants(prop)
+    variants: List[V] = list(getattr(mod, "selftest")()) + regression_variants(prop) + seed_variants(prop) + neutral_variants(prop)
     if only:
         variants = [v for v in variants if v.name in only]
     base_keys = _viol_keys(base_ctx)
@@ -144,6 +144,7 @@ def run_selftest(prop: str, mod, base_ctx: Ctx, jobs: int = None, only: Optional
         "twin_silent": sum(1 for r in res if r[1] == "twin" and r[2] == "ok"),
         "seed_quiet_total": sum(1 for r in res if r[1] == "quiet" and r[2] != "stale"),
         "seed_quiet_silent": sum(1 for r in res if r[1] == "quiet" and r[2] == "ok"),
+        "quiet_refused": sum(1 for r in res if r[1] == "quiet" and r[2] == "ok" and "no verdict" in r[3]),
         "failed": sum(1 for r in res if r[2] == "fail"),
         "failures": [f"{r[0]}: {r[3]}" for r in res if r[2] == "fail"],
         "stale_names": [r[0] for r in res if r[2] == "stale"],
@@ -258,6 +259,23 @@ def seed_variants(prop: str, expected_only: bool = True):
         first, rest = eds[0], tuple(eds[1:])
         kind = "break" if prop in e.get("fires", []) else "quiet"
         out.append(V(f"seed-{sid}", first[0], first[1], first[2], kind=kind, more=rest))
+    return out
+
+
+def neutral_variants(prop: str):
+    """The stored behaviour-preserving refactorings (neutral/<id>/patch.diff, written by independent sub-agents, suite
+    unchanged): no check may raise an alarm on any of them (a refusal is tolerated and counted)."""
+    import glob
+
+    root = os.path.dirname(os.path.dirname(os.path.abspath(__file__)))
+    out = []
+    for pf in sorted(glob.glob(os.path.join(root, "neutral", "*", "patch.diff"))):
+        eds = edits_from_patch(pf, reverse=False)
+        if not eds:
+            continue
+        nid = os.path.basename(os.path.dirname(pf))
+        first, rest = eds[0], tuple(eds[1:])
+        out.append(V(f"neutral-{nid}", first[0], first[1], first[2], kind="quiet", more=rest))
     return out
 
 
